@@ -191,8 +191,8 @@ func genValueOfKind(t *rapid.T, kind string, depth int) tengo.Object {
 type cloner struct {
 	memo   map[tengo.Object]tengo.Object
 	leafNo int
-	target int                                // leaf index to transform (-1: none)
-	leafFn func(tengo.Object) tengo.Object    // applied to the target leaf
+	target int                                 // leaf index to transform (-1: none)
+	leafFn func(tengo.Object) tengo.Object     // applied to the target leaf
 	flip   func(o tengo.Object, top bool) bool // flip mutability of this container?
 	top    tengo.Object
 }
